@@ -24,7 +24,10 @@ THEOREMS = [
     "Nix.C07.range_index",
     "Nix.C07.range_index_iff",
     "Nix.C07.sampled_index",
+    "Nix.C07.sampled_index_iff",
     "Nix.C07.set_index",
+    "Nix.C07.set_index_iff",
+    "Nix.C07.guard_on_raw_position_counterexample",
     "Nix.C07.band_width",
     "Nix.C07.band_limit_generated",
     "Nix.C07.sampled_index_full_counterexample",
@@ -49,7 +52,7 @@ ASSUMPTIONS = [
     "recorded as open known finding C07-tolerance-band); sampling_interval <= 0 is outside the theorems "
     "(the validator rejects it); sampling_interval = 0 is outside the model (the code divides by it)",
     "round trip index_of(position_at(i)) = i is a theorem in exact arithmetic; on the implementation the oracle "
-    "checks it for |offset|/interval + i <= 2^24, where float noise stays below the tolerance band",
+    "checks it for |offset|/interval + i <= 2^22, where float noise stays below the tolerance band",
 ]
 TRUSTED_EXTRA = ["harness/extract/dims.py renders the np.isclose tolerances (numpy defaults when absent), the guard "
                  "argument, the rounding functions, the IndexMode/SliceMode members and the end_mode choices"]
@@ -262,6 +265,9 @@ class Impl:
             if op == "set_range_indices":
                 r = self.set_(case[1], via).range_indices(fl(case[2]), fl(case[3]), self.smode(case[4]))
                 return {"ok": None if r is None else [int(r[0]), int(r[1])]}
+            if op == "to_index_mode":
+                r = getattr(self.nix.SliceMode, case[1]).to_index_mode()
+                return {"ok": None if r is None else r.value}
         except Exception as e:
             for cls, nm in ((IndexError, "IndexError"), (ValueError, "ValueError"), (TypeError, "TypeError"),
                             (KeyError, "KeyError"), (ArithmeticError, "ArithmeticError")):
@@ -535,6 +541,9 @@ def gen_cases(ctx):
         tj = [fs(t) for t in ticks]
         p = rng.choice(ticks + [0.5, 1.5, 2.25, -2.0, 4.0])
         add("range.unsorted_link", ["range_index_of", tj, fs(p), rng.choice(MODES), {"via": "link"}])
+
+    for sm in SMODES:
+        add("to_index_mode", ["to_index_mode", sm])
 
     for _ in range(ctx.budget(2500, 25000)):
         n = rng.choice([0, 0, 1, 2, 3, 5, 12])
@@ -883,7 +892,7 @@ def gen_roundtrip_cases(ctx, n):
         k = rng.random()
         if k < 0.5:
             si = rng.choice([0.1, 0.001, 1 / 30000.0, 0.25, 3.3, 1.0, 2.0, rng.uniform(0.01, 10), 10 ** rng.uniform(-4, 2)])
-            lim = 2 ** 24
+            lim = 2 ** 22
             off = rng.choice([None, 0.0, -5.0, 0.1, rng.uniform(-100, 100), rng.uniform(-1, 1) * si * lim / 2])
             room = int(lim - abs((off or 0.0) / si))
             i = rng.choice([0, 1, 2, 10, rng.randint(0, 1000), 50000, 100000, rng.randint(0, max(room, 1))])
